@@ -10,5 +10,7 @@ def run(tier, seed):
         out.add_pyvc(common.pyvc_run(PROVED_TARGETS, timeout_ms=10000 if tier == "quick" else 60000))
     from checks import c10_bounded
     c10_bounded.run(out, tier, seed)
+    from checks import extra_bounded
+    extra_bounded.c10_shared_instances(out, tier, seed)
     out.assumptions += ["cloudpickle round-trips the recorder callables; the thin Memory subclass used by the stand-in keeps values in-process instead of shm"]
     return out.finish("exploration", rule="see bounded_standins[].bound", explanation="real graph2job + execute_sequence + runner.run on enumerated graphs; recorder callables make every argument position and every output binding observable")
